@@ -1069,6 +1069,75 @@ Proof.
   pose proof (id_good c progs s2 Hvm HR2 Hnv) as G. apply (g_wins _ _ _ G). apply (run_wins_mono c sch s). exact Hw.
 Qed.
 
+(* ------------------------------------------------------------------ every minted value has its link cell (ensure) *)
+Lemma length_set_ext : forall n x l, (n < length (set_ext n x l))%nat /\ (length l <= length (set_ext n x l))%nat.
+Proof. induction n; intros x l; destruct l; simpl; try lia; destruct (IHn x []); try destruct (IHn x l); simpl in *; lia. Qed.
+
+Definition mint_pending (ths : list thread) (v : Z) : Prop :=
+  exists t th, nth_error ths t = Some th /\ tpc th = AMintMark v.
+Definition LenInv (s : shared) (ths : list thread) : Prop :=
+  forall v, 0 <= v < nv s -> (Z.to_nat v < length (nxt s))%nat \/ mint_pending ths v.
+
+Lemma tstep_shape : forall c s th s' th', tstep c s th = Some (s', th') ->
+  (length (nxt s) <= length (nxt s'))%nat /\
+  (forall v0, tpc th = AMintMark v0 -> (Z.to_nat v0 < length (nxt s'))%nat) /\
+  ((tpc th = AMint /\ nv s' = nv s + 1 /\ tpc th' = AMintMark (nv s)) \/ (tpc th <> AMint /\ nv s' = nv s)).
+Proof.
+  intros c s th s' th' Hs. unfold tstep in Hs.
+  destruct (tpc th) eqn:Hpc;
+    repeat match type of Hs with
+           | context [match ?x with _ => _ end] => destruct x
+           end; inversion Hs; subst; simpl; unfold setz, mint_increment;
+    (split; [first [apply Nat.le_refl | apply length_set_ext] |
+     split; [intros v0 E; first [discriminate E | inversion E; subst; apply length_set_ext] |
+             first [left; repeat split; reflexivity | right; split; [discriminate | reflexivity]]]]).
+Qed.
+
+Lemma tstep_len : forall c s ths t th s' th', LenInv s ths -> nth_error ths t = Some th ->
+  tstep c s th = Some (s', th') -> LenInv s' (set_nth t th' ths).
+Proof.
+  intros c s ths t th s' th' I Hn Hs v Hv. destruct (tstep_shape _ _ _ _ _ Hs) as (L1 & L2 & L3).
+  assert (Keep : forall w, mint_pending ths w ->
+                 (Z.to_nat w < length (nxt s'))%nat \/ mint_pending (set_nth t th' ths) w).
+  { intros w (t0 & th0 & N0 & P0). destruct (Nat.eq_dec t0 t) as [->|Hne].
+    - rewrite Hn in N0. inversion N0; subst th0. left. apply L2; auto.
+    - right. exists t0, th0. split; auto. rewrite nth_error_set_nth_other; auto. }
+  destruct L3 as [(Pm & Env & Pm')|(Pm & Env)].
+  - destruct (Z.eq_dec v (nv s)) as [->|Hne].
+    + right. exists t, th'. split; auto. eapply nth_error_set_nth_same; eauto.
+    + destruct (I v) as [Hl|Hp]; [lia|left; lia|]. apply Keep; auto.
+  - destruct (I v) as [Hl|Hp]; [lia|left; lia|]. apply Keep; auto.
+Qed.
+
+Theorem id_len_inv : forall c progs s, Reach c progs s -> LenInv (sh s) (threads s).
+Proof.
+  intros c progs. apply (inv_reachable st (step c) (fun s => LenInv (sh s) (threads s))).
+  - intros v Hv. simpl in Hv. lia.
+  - intros s t s' IH Hs. unfold step in Hs.
+    destruct (nth_error (threads s) t) as [th|] eqn:Hn; [|discriminate].
+    destruct (tstep c (sh s) th) as [[s1 th1]|] eqn:E; [|discriminate]. inversion Hs; subst. simpl.
+    eapply tstep_len; eauto.
+Qed.
+
+(* at quiescence the table covers every minted value, so the scan bound of for_each is _next_value *)
+Lemma FREE_BLOCK_pos : 0 < FREE_BLOCK.
+Proof. reflexivity. Qed.
+Lemma capacity_ge_length : forall s, Z.of_nat (length (nxt s)) <= capacity s.
+Proof.
+  intros s. unfold capacity. pose proof FREE_BLOCK_pos as B. set (n := Z.of_nat (length (nxt s))). set (b := FREE_BLOCK) in *.
+  pose proof (Z.mul_succ_div_gt (n + b - 1) b B). lia.
+Qed.
+Lemma quiescent_bound : forall c progs s, Reach c progs s -> quiescent s = true -> foreach_bound c (sh s) = nv (sh s).
+Proof.
+  intros c progs s HR Hq. pose proof (id_len_inv c progs s HR) as I.
+  assert (Hlen : nv (sh s) <= Z.of_nat (length (nxt (sh s)))).
+  { destruct (Z_le_gt_dec (nv (sh s)) 0) as [|Hpos]; [lia|].
+    destruct (I (nv (sh s) - 1)) as [Hl|(t & th & N & P)]; [lia|lia|].
+    unfold quiescent in Hq. rewrite forallb_forall in Hq. specialize (Hq th (nth_error_In _ _ N)).
+    unfold thread_idle in Hq. rewrite P in Hq. discriminate. }
+  pose proof (capacity_ge_length (sh s)). unfold foreach_bound, foreach_cap_operand. lia.
+Qed.
+
 (* ------------------------------------------------------------------------------------ for_each at quiescence *)
 Lemma in_zseq : forall n v, In v (zseq n) <-> 0 <= v < n.
 Proof.
@@ -1095,7 +1164,7 @@ Theorem id_for_each_exact : forall c progs s, vmod c = 0 -> Reach c progs s -> n
   quiescent s = true -> forall v, In v (live c (sh s)) <-> In v (held_values s).
 Proof.
   intros c progs s Hvm HR Hnv Hq v. pose proof (id_good c progs s Hvm HR Hnv) as G. unfold live, held_values.
-  rewrite filter_In, in_zseq, Z.eqb_eq. split.
+  rewrite (quiescent_bound c progs s HR Hq). rewrite filter_In, in_zseq, Z.eqb_eq. split.
   - intros [Hr Ha]. pose proof (g_cnt _ _ _ G v) as E. rewrite (proj2 (inrange_1 _ _) Hr) in E. unfold total in E.
     destruct (In_dec Z.eq_dec v (fl (sh s))) as [Hf|Hf].
     { exfalso. pose proof ACT_lt_tail c. unfold ACTc in *.
